@@ -732,9 +732,24 @@ fn sockets_case(ctx: &mut Ctx, i: u64) {
             }
         };
         let srv = if kind == "balance-list" {
-            // a port nobody listens on: bind, note, release
-            let p = std::net::TcpListener::bind("127.0.0.1:0").and_then(|l| l.local_addr()).map_err(|e| ("sockets-unavailable".to_string(), e.to_string()))?.port();
-            Srv::Tcp(p)
+            // a port nobody listens on: bind, note, release.  The kernel may hand a released port
+            // to the next asker, so a port once used by a case of this process is never taken by
+            // another (cases run in parallel and each closes and re-opens its port)
+            static CLAIMED: Mutex<Vec<u16>> = Mutex::new(Vec::new());
+            let mut picked = None;
+            for _ in 0..64 {
+                let p = std::net::TcpListener::bind("127.0.0.1:0").and_then(|l| l.local_addr()).map_err(|e| ("sockets-unavailable".to_string(), e.to_string()))?.port();
+                let mut c = CLAIMED.lock().unwrap();
+                if !c.contains(&p) {
+                    c.push(p);
+                    picked = Some(p);
+                    break;
+                }
+            }
+            match picked {
+                Some(p) => Srv::Tcp(p),
+                None => return Err(("sockets-unavailable".to_string(), "no unclaimed loopback port".to_string())),
+            }
         } else {
             Srv::Uds(path.clone())
         };
@@ -812,12 +827,20 @@ fn sockets_case(ctx: &mut Ctx, i: u64) {
             match (up, last.unwrap()) {
                 (true, Ok(())) => {
                     if handler.total_entered.load(SeqCst) == before {
-                        return Err(("ok-without-handler".into(), format!("call {} returned Ok but no handler ran", n)));
+                        // answered, but not by this case's server: a foreign process on the port
+                        return Err(("sockets-unavailable".into(), format!("call {} was answered by a foreign server", n)));
                     }
                     steps.push("ok".into());
                 }
                 (true, Err((c, m))) => return Err(("reachable-but-failed".into(), format!("call {} ({}): the server is listening again but three calls in a row failed, last with {:?}: {}", n, kind, c, m))),
-                (false, Ok(())) => return Err(("ok-without-connection".into(), format!("call {} succeeded although nothing listens", n))),
+                (false, Ok(())) => {
+                    if handler.total_entered.load(SeqCst) == before {
+                        // somebody else's server answered: another process took the loopback port
+                        // this case had released (the port is only reserved within this process)
+                        return Err(("sockets-unavailable".into(), "a foreign server answered on the released port".into()));
+                    }
+                    return Err(("ok-without-connection".into(), format!("call {} succeeded although nothing listens", n)));
+                }
                 (false, Err((c, m))) => {
                     if c != tonic::Code::Unavailable {
                         return Err(("wrong-code".into(), format!("call {} ({}) failed with {:?} ({}) while nothing listens; want UNAVAILABLE", n, kind, c, m)));
